@@ -376,6 +376,9 @@ fn gen_case(rng: &mut Rng, thorough: bool) -> Case {
             for _ in 0..rng.range(1, 4) {
                 h0.push(HAct::Pend);
             }
+            if rng.chance(1, 2) {
+                h0.push(HAct::Wait);
+            }
             h0.push(HAct::Respond(RespBody::None));
             handlers.push(h0);
             for _ in 0..fast + late {
@@ -384,8 +387,8 @@ fn gen_case(rng: &mut Rng, thorough: bool) -> Case {
             }
             rounds.push(Round { add: 18 * (1 + fast), wr: wr_script(rng, 0), ..Default::default() });
             rounds.push(Round { add: 18 * late, wr: wr_script(rng, 0), ..Default::default() });
-            for _ in 0..6 {
-                rounds.push(Round { add: 0, wr: wr_script(rng, 0), ..Default::default() });
+            for k in 0..6 {
+                rounds.push(Round { add: 0, hw: k == 2, wr: wr_script(rng, 0), ..Default::default() });
             }
         }
         _ => {
